@@ -133,6 +133,16 @@ func (n *Native) Build(ld *Loaded) {
 		os.WriteFile(hpPath, hp, 0o644)
 		overlay[filepath.Join(*flagRepo, n.PkgDir, "zz_vpprelude_http.go")] = hpPath
 	}
+	sh, err := sharedFor(n.PkgDir, pkgName)
+	if err != nil {
+		n.Err = err.Error()
+		return
+	}
+	for fn, data := range sh {
+		sp := filepath.Join(dir, fn)
+		os.WriteFile(sp, data, 0o644)
+		overlay[filepath.Join(*flagRepo, n.PkgDir, fn)] = sp
+	}
 	sort.Strings(names)
 	var hb strings.Builder
 	for _, nm := range names {
